@@ -155,7 +155,7 @@ class Run:
         self.mut_objects = {}
         # request objects are kept alive ONLY when a later op of the scenario re-submits them; everything else is
         # dropped as an application would, so that freed objects can be followed by new ones at the same address
-        self.keep_ids = {o.get(k) for o in self.ops.values() for k in ("reuse_of", "mutate_of") if o.get(k) is not None}
+        self.keep_ids = {o.get(k) for o in self.ops.values() for k in ("reuse_of", "mutate_of", "resubmit_of") if o.get(k) is not None}
         for o in self.ops.values():
             if o.get("nested"):
                 self.keep_ids.add(o["id"])
@@ -185,7 +185,11 @@ class Run:
         elif form == "both":
             kwargs["request"] = values.to_native(desc, op.get("request") or {})
             kwargs.update(values.to_native_kwargs(desc, op.get("kwargs") or {}))
-        if form in ("dict", "msg"):
+        if form in ("dict", "msg") and op.get("resubmit_of") is not None and op["resubmit_of"] in self.mut_objects:
+            # legal caller behaviour: the very same request object is submitted again, untouched (e.g. after an error)
+            kwargs["request"] = self.mut_objects[op["resubmit_of"]]
+            self.sim.ev("request_object_resubmitted", op=op["id"], of=op["resubmit_of"])
+        elif form in ("dict", "msg"):
             # legal caller behaviour: ONE request object is kept by the caller, edited in place between calls
             # (req.name = ...; client.get(request=req)); 'mutate_of' names the op whose object is edited here
             prev = self.mut_objects.get(op.get("mutate_of")) if op.get("mutate_of") is not None else None
@@ -899,6 +903,9 @@ def scripted_server(run):
             o = {k: v for k, v in script[-1].items() if k not in ("code", "cut")}
             o["lat"] = min(o.get("lat", 0.0), 0.01)
         out = {"lat": o.get("lat", 0.0)}
+        if o.get("conn_error"):
+            out["conn_error"] = True           # REST only: the connection breaks, no HTTP status at all
+            return out
         if o.get("code"):
             out["code"] = o["code"]
             return out
